@@ -64,6 +64,7 @@ def shards(tier):
     # sector-bitmap entry per chunk with the payload entries
     for i in range(4):
         out.append({"buf": 8192, "kind": "vhdx-blocks", "depth": 2, "W": 3, "slice": [i, 4], "at": 4094, "total": 4098})
+    out.append({"buf": 8192, "kind": "vhdx-twochunks"})
     out.append({"buf": 8192, "kind": "vhdx-locate"})
     for buf in bufs[:2] if q else bufs:
         for mech in ("vmdk-hosted", "vmdk-stream", "vmdk-sesparse", "vmdk-multi", "hdd", "hdd-top", "hdd-topdefault", "hdd-plainbase", "hdd-split",
@@ -97,6 +98,9 @@ def run_shard(shard, ctx):
         _shard_vhdx_bitmap(shard, ctx)
     elif kind == "vhdx-locate":
         _shard_vhdx_locate(shard, ctx)
+    elif kind == "vhdx-twochunks":
+        for word in (0x00FF, 0x5A5A, 0x0001, 0xFFFE):
+            run_case({"kind": "vhdx-twochunks", "word": word}, ctx)
     elif kind == "chain":
         _shard_chain(shard, ctx)
     elif kind == "vmdk-absent-table":
@@ -131,6 +135,8 @@ def run_case(case, ctx):
             _case_vhdx_bitmap(case, ctx, d, {})
         elif kind == "vhdx-locate":
             _case_vhdx_locate(case, ctx, d)
+        elif kind == "vhdx-twochunks":
+            _case_vhdx_twochunks(case, ctx, d)
         elif kind == "chain":
             _case_chain(case, ctx, d, {})
         elif kind == "deep-chain":
@@ -355,6 +361,42 @@ def _case_vhdx_bitmap(case, ctx, d, cache):
             subj = f"vhdx.chain{depth}.bitmap.{where}"
             compare_sector_reads(ctx, case, v.read_sectors, disk, sreqs, subj + ".read_sectors", sector)
             compare_reads(ctx, case, v, disk, reqs, subj + ".read")
+        finally:
+            _close_chain(v)
+
+
+def _case_vhdx_twochunks(case, ctx, d):
+    """Partially present blocks at the same position of two different chunks (blocks 5 and 4096 + 5), with complementary sector
+    bitmaps, read alternately through equal in-block windows."""
+    from dissect.hypervisor.disk.vhdx import VHDX
+
+    from mc.builders import vhdx as B
+
+    at, W, total, spb = 5, 4097, 4110, 2048
+    names = _vhdx_names(2)
+    base_states = [DATA] + [B.NOT_PRESENT] * (W - 2) + [DATA]
+    _write_vhdx_layer(d, names, 0, base_states, [0] + [None] * (W - 2) + [1], None, {}, total=total, at=at)
+    disk = B.model(base_states, MB, 512, None, 1, None, total_blocks=total, window_at=at)
+    word = case["word"]
+    bmA = [(word >> (j % 16)) & 1 for j in range(spb)]
+    bm = {at: bmA, at + 4096: [1 - b for b in bmA]}
+    states = [B.PARTIAL] + [B.NOT_PRESENT] * (W - 2) + [B.PARTIAL]
+    _write_vhdx_layer(d, names, 1, states, [1] + [None] * (W - 2) + [0], bm, {}, total=total, at=at)
+    disk = B.model(states, MB, 512, None, 2, disk, bitmaps=bm, total_blocks=total, window_at=at)
+    ctx.model(case)
+    ctx.executions += 1
+    ctx.sample(case)
+    ctx.nontrivial += 1
+    a0, a1 = at * spb, (at + 4096) * spb
+    sreqs = []
+    for off, n in ((8, 16), (3, 5), (0, 64), (2040, 8), (100, 1)):
+        sreqs += [(a0 + off, n), (a1 + off, n), (a0 + off, n), (a1 + off, n)]
+    reqs = [(s * 512 + 1, c * 512 - 2) for s, c in sreqs[:8]]
+    with ctx.watch(case):
+        v = VHDX(Path(d) / names[-1])
+        try:
+            compare_sector_reads(ctx, case, v.read_sectors, disk, sreqs, "vhdx.chain2.bitmap.two-chunks.read_sectors", 512)
+            compare_reads(ctx, case, v, disk, reqs, "vhdx.chain2.bitmap.two-chunks.read")
         finally:
             _close_chain(v)
 
